@@ -10,6 +10,8 @@ package signaling
 //   peerrst <doc> <shape…>                    the same, immediately followed by a TCP reset
 //   bin <doc>                                 the peer sends a binary frame
 //   drop <tcp|close|rst>                      the peer drops the connection
+//   drop hold                                 the peer drops the connection and refuses new ones (every reconnect fails) …
+//   up                                        … until it accepts connections again
 //   local <leave|msg|bye>                     the local client acts
 //   probe                                     liveness of the hub and of the bystander
 //
@@ -154,6 +156,7 @@ type vC12Peer struct {
 	server    *httptest.Server
 	conns     chan *vC12WS
 	advertise atomic.Bool
+	refuse    atomic.Bool // the server is down: upgrade requests are answered with 503
 }
 
 func newVC12Peer() *vC12Peer {
@@ -163,6 +166,10 @@ func newVC12Peer() *vC12Peer {
 	p.server = httptest.NewServer(http.HandlerFunc(func(w http.ResponseWriter, r *http.Request) {
 		if !strings.HasSuffix(r.URL.Path, "/spreed") {
 			http.NotFound(w, r)
+			return
+		}
+		if p.refuse.Load() {
+			http.Error(w, "down", http.StatusServiceUnavailable)
 			return
 		}
 		h := http.Header{}
@@ -288,6 +295,8 @@ type vC12State struct {
 	base            int32 // hub.readPumpActive without federation read loops
 	localClosedSeen bool
 	cloud           string
+	holding         bool          // the peer refuses connections ("drop hold" … "up")
+	acceptWait      time.Duration // how long settle waits for the reconnect
 }
 
 func (s *vC12State) fed() *FederationClient {
@@ -508,8 +517,12 @@ func (s *vC12State) settle(extraP []string) string {
 		}
 		if e.hub.readPumpActive.Load() > s.base {
 			stuck = s.diagnose("read-loop-never-ended")
-		} else if f := s.anyFed(); f != nil && !f.closer.IsClosed() {
-			if c := e.peer.accept(4 * time.Second); c != nil {
+		} else if f := s.anyFed(); f != nil && !f.closer.IsClosed() && !s.holding {
+			wait := 4 * time.Second
+			if s.acceptWait > wait {
+				wait = s.acceptWait
+			}
+			if c := e.peer.accept(wait); c != nil {
 				s.pc = c
 				P = append(P, "reconnect")
 				// connect() stores the new connection and starts its read loop after the upgrade
@@ -786,6 +799,11 @@ func (s *vC12State) step(line string) string {
 			return "no-conn"
 		}
 		switch f[1] {
+		case "hold":
+			s.holding = true
+			e := s.e
+			e.peer.refuse.Store(true)
+			s.pc.closeHard()
 		case "close":
 			s.pc.wmu.Lock()
 			s.pc.conn.WriteControl(websocket.CloseMessage, websocket.FormatCloseMessage(websocket.CloseNormalClosure, ""), time.Now().Add(time.Second)) // nolint
@@ -845,6 +863,15 @@ func (s *vC12State) step(line string) string {
 			}
 		}
 		return s.settle(P)
+	case "up":
+		if s.holding {
+			s.holding = false
+			s.e.peer.refuse.Store(false)
+			// the client doubles its delay with every refused attempt (at most maxFederationReconnectInterval)
+			s.acceptWait = maxFederationReconnectInterval + 2*time.Second
+			defer func() { s.acceptWait = 0 }()
+		}
+		return s.settle(nil)
 	case "probe":
 		return s.probe()
 	case "expire":
@@ -943,6 +970,7 @@ func (s *vC12State) probe() string {
 // finish ends the case: the local client says bye; every read loop of the case must end.
 func (s *vC12State) finish() {
 	e := s.e
+	e.peer.refuse.Store(false)
 	if s.local != nil {
 		if !s.local.dead {
 			s.local.send(websocket.TextMessage, `{"type":"bye"}`) // nolint
